@@ -1149,6 +1149,12 @@ def roundtrip_checks(ctx, batch, recipe, root, el_index, el, stream, parsed):
                               no_failing_input=True)
             if not m_repr:
                 return
+            tl = lambda forest_: sum((len(x[2]) if x[1] in TEXT_CLASSES else 0) if x[0] == "S" else tl(x[6]) for x in forest_)
+            if str(tl(got3) - tl(got)) != fields.get("grow"):
+                ctx.corr_disagreements += 1
+                ctx.violation("the text gained on the real second round trip is not the model's growth count (second_normalisation_growth)",
+                              case=dict(case, request=req, rendered=text), expected="model: grow=" + str(fields.get("grow")),
+                              observed=f"real: {tl(got3) - tl(got)}", stream=stream, no_failing_input=True)
             if fields.get("repr2") != "1":
                 ctx.corr_disagreements += 1
                 ctx.violation("the normal form of a representable forest is not representable (contradicts representable_normal_form)",
